@@ -97,3 +97,4 @@ MANIFEST = {
     "technique": "runtime monitoring: taps on beam-search internals, per-step top-k audit, replay of every returned beam through the real env and decoder",
     "design_ref": "DESIGN.md section 4 / C13",
 }
+MANIFEST["text"] += ' Rounds 7-8: L2D beam search on FJSP / JSSP (forced starts tapped at the env, beams replayed by the job-shop simulator), OP / SVRP batches with rows that have no feasible first customer.'
